@@ -262,6 +262,8 @@ func (m *Message) Clone() *Message {
 	return &Message{
 		Ctx:    m.Ctx,
 		Record: m.Record.Clone(),
+
+		filtered: m.filtered,
 	}
 }
 
